@@ -36,6 +36,11 @@ ASSUMPTIONS = [
     "at the next outbound number); when the send raises the exception is swallowed and the watermark stays assigned",
 ]
 MODELLED_NOT_VERIFIED = [
+    "C04: collaborator faults (the k-th journal write / transport write raising a foreign exception once) and re-entrant hooks "
+    "(on_message awaiting disconnect() = a disconnect racing the suspended reader, awaiting send_msg(), raising) are NOT in the "
+    "Lean model (hooks return normally, sends fail only for the modelled reasons): they are covered by the implementation-only "
+    "oracle, whose clauses are judged over the whole history incl. the reconnect of the same object after the fault; the one "
+    "event whose ResendRequest could not be sent is exempt from 'exactly one ResendRequest' only (cf. CanSend in gap_one_resend)",
     "C04: foreign session-level tags on any frame (36, 123, 7/16, 112, 43, 97, 122, 141, 98/108), role, should_replay, heartbeat "
     "period, gaps > 1000 and reconnects of the same object are inside the theorems' quantifiers (arbitrary Msg tag lists, Conn, sr, "
     "Event lists); the correspondence / oracle sample them: 14 decorations x 15 letters exhaustively as single steps and as first "
@@ -254,6 +259,8 @@ def parse_event_tokens(text: str):
         return ("conn", t[1])
     if k == "reset":
         return ("reset",)
+    if k == "fault":
+        return ("fault", t[1])
     raise ValueError(text)
 
 
@@ -321,22 +328,115 @@ def compare_steps(impl, cases, drv, stats=None):
     return len(cases), dis, results
 
 
-def run_letters(impl: S.Impl, start: S.AbsConn, letters, lockstep=True, chooser=None, sr_override=None):
+FAULTS = ["!jout", "!jin", "!write", "!hookdisc", "!hooksend", "!hookraise"]
+
+
+class Faults:
+    """one-shot collaborator faults / re-entrant hooks on the REAL connection of an `Impl` (oracle only):
+    !jout / !jin  – the next OUTBOUND / INBOUND journal write raises sqlite3.OperationalError('database is locked')
+    !write        – the next transport write raises ConnectionResetError
+    !hookdisc     – the next on_message() awaits disconnect() before returning (= a disconnect racing the reader
+                    suspended inside the delivery);  !hooksend – it awaits send_msg();  !hookraise – it raises
+    Each fault fires once (effect marker FAULT) and everything works again afterwards."""
+
+    def __init__(self, impl: S.Impl):
+        import sqlite3
+
+        self.impl, self.armed = impl, set()
+        impl._faults = self
+        eff, me, conn = impl.eff, self, impl.conn
+        orig_persist = impl.journal.persist_msg
+        orig_write = impl.writer.write
+
+        def persist_msg(msg, session, direction):
+            k = "!jout" if direction == impl.MD.OUTBOUND else "!jin"
+            if k in me.armed:
+                me.armed.discard(k)
+                eff.append(("FAULT",))
+                raise sqlite3.OperationalError("database is locked")
+            return orig_persist(msg, session, direction)
+
+        def write(b):
+            if "!write" in me.armed:
+                me.armed.discard("!write")
+                eff.append(("FAULT",))
+                raise ConnectionResetError("peer reset")
+            return orig_write(b)
+
+        async def on_message(msg):
+            eff.append(("D", msg))
+            for k in ("!hookdisc", "!hooksend", "!hookraise"):
+                if k in me.armed:
+                    me.armed.discard(k)
+                    eff.append(("FAULT",))
+                    if k == "!hookdisc":
+                        await conn.disconnect(impl.CS.DISCONNECTED_BROKEN_CONN)
+                    elif k == "!hooksend":
+                        await conn.send_msg(impl.FIXMessage("D", {11: "fromhook"}))
+                    else:
+                        raise RuntimeError("application hook failed")
+
+        impl.journal.persist_msg = persist_msg
+        impl.writer.write = write
+        impl.conn.on_message = on_message
+
+    def arm(self, kind):
+        assert kind in FAULTS, kind
+        self.armed.add(kind)
+
+    def reset(self):
+        self.armed.clear()
+
+
+def ev_tokens(ev) -> str:
+    return f"fault {ev[1]}" if ev[0] == "fault" else S.event_tokens(ev)
+
+
+def apply_event(impl, faults, sr, ev):
+    if ev[0] == "fault":
+        if faults is None:
+            raise ValueError("fault letter without a Faults instance")
+        faults.arm(ev[1])
+    else:
+        impl.apply(sr, ev)
+
+
+def scripted(tail):
+    """chooser: the letters of `tail` in order, but whenever the connection is down the SAME object is first
+    reconnected and logged on again (conn, Logon exchange) – the peer continues its numbering"""
+    tail = list(tail)
+
+    def nxt(a):
+        if a.state <= 3:
+            return "conn"
+        if a.state == 6:
+            return "sendlogon" if a.role != 2 else "logon@"
+        if a.state == 7:
+            return "logon@"
+        return tail.pop(0) if tail else "app@"
+
+    return nxt
+
+
+def run_letters(impl: S.Impl, start: S.AbsConn, letters, lockstep=True, chooser=None, sr_override=None, faults=None):
     """run a letter history on the REAL connection; returns steps [(sr, ev, letter, pre_tokens, eff, post_tokens)].
     `letters` is a list, or a length when `chooser(a)` picks each letter from the current abstract state."""
     impl.load(start)
+    faults = faults or getattr(impl, "_faults", None)
+    if faults is not None:
+        faults.reset()
     a, now, steps = start, T0, []
     n = letters if chooser else len(letters)
     for i in range(n):
         L = chooser(a) if chooser else letters[i]
         now += 250
-        sr, ev = letter_event(a, L, now)
+        sr, ev = ("all", ("fault", L)) if L.startswith("!") else letter_event(a, L, now)
         if sr_override:
             sr = sr_override
         if not lockstep:
             impl.load(a)
         del impl.eff[:]
-        impl.apply(sr, ev)
+        apply_event(impl, faults, sr, ev)
         eff, post = impl.effects(), impl.dump()
         steps.append((sr, ev, L, a.tokens(), eff, post))
         a = S.parse_conn_tokens(post)
@@ -345,7 +445,7 @@ def run_letters(impl: S.Impl, start: S.AbsConn, letters, lockstep=True, chooser=
 
 def hist_input(start, steps, upto=None):
     steps = steps if upto is None else steps[: upto + 1]
-    return {"history": {"start": start.tokens(), "events": [[s[0], S.event_tokens(s[1])] for s in steps],
+    return {"history": {"start": start.tokens(), "events": [[s[0], ev_tokens(s[1])] for s in steps],
                         "letters": [s[2] for s in steps]}}
 
 
@@ -568,6 +668,9 @@ def check_history(start: S.AbsConn, steps):
         gapfill = _get(fs, 123) == "Y"
         is_reset = mt == "4"
         this_backward = bool(is_reset and not gapfill and new is not None and new < exp)
+        # an injected collaborator fault fired in this event: the property is silent about the failing operation itself
+        # (a ResendRequest that could not be sent), all other clauses and ALL later events are judged as usual
+        faulted = "FAULT" in eff
 
         def fail(sig, what, expected=None, observed=None):
             if sig != SIG_D6 and (backward_seen or this_backward) and sig in (
@@ -646,14 +749,19 @@ def check_history(start: S.AbsConn, steps):
         if integrity_ok and seq == exp and pre.state >= 8 and mt not in ("0", "1", "2", "4", "5", "A") and not ds:
             fail("C04-expected-not-delivered", "application frame carrying the expected number was not delivered", 1, 0)
         above = integrity_ok and seq > exp and mt not in ("A", "5") and not (is_reset and not gapfill)
+        # the ResendRequest itself could not be sent (injected fault, or a swallowed exception and nothing written): the
+        # property – like gap_one_resend's CanSend – is silent about that send; nothing may be delivered or skipped all the same
+        send_failed = faulted or (not rrs and any(e.startswith("C=") for e in eff))
         if above and pre.state >= 8 and pre.sock and (pre.state != 12 or gap is None):
-            if len(rrs) != 1:
+            if len(rrs) != 1 and not send_failed:
                 fail("C04-gap-no-resend", "number above the expectation did not trigger exactly one ResendRequest", 1, len(rrs))
             if ds:
                 fail("C04-delivered-past-gap", "a frame numbered above the expectation was delivered")
             if post.next_in != exp:
                 fail("C04-skipped-past-gap", "expected number moved on a frame numbered above it", exp, post.next_in)
-            if post.state not in (12, 1, 2, 3):
+            if send_failed:
+                pass
+            elif post.state not in (12, 1, 2, 3):
                 fail("C04-gap-state", "state after a detected gap is not RESENDREQ_AWAITING", 12, post.state)
             elif post.state == 12 and post.max_resend != seq:
                 fail("C04-gap-watermark", "watermark is not the number that revealed the gap", seq, post.max_resend)
@@ -734,6 +842,7 @@ def oracle(ctx, disagreements, broken):
     failures, stats = [], {"histories": 0, "events": 0, "delivered": 0, "resend_requests": 0, "gaps_closed": 0,
                            "by_signature": {}}
     starts = dict(start_states())
+    faults = Faults(impl)
     try:
         def run_and_check(st, steps):
             stats["histories"] += 1
@@ -787,6 +896,7 @@ def oracle(ctx, disagreements, broken):
                     a = S.parse_conn_tokens(inp["conn"])
                     ev = parse_event_tokens(inp["event"])
                     for t in (["app@", "app@", "app@"], ["app+3", "app@"]):
+                        faults.reset()
                         impl.load(a)
                         del impl.eff[:]
                         impl.apply(inp["sr"], ev)
@@ -815,6 +925,17 @@ def oracle(ctx, disagreements, broken):
                     for tail in (["app@", "app@"], ["app+3", "app@"]):
                         run_and_check(st, run_letters(impl, st, [L + "|" + D] + tail))
                         stats["decorated_histories"] += 1
+        # collaborator faults and re-entrant hooks: every fault kind armed before every letter, then traffic above and at
+        # the expectation; when the connection went down the same object reconnects and the peer continues its numbering
+        stats["fault_histories"], stats["faults_fired"] = 0, 0
+        for name, st in dsts:
+            for F in FAULTS:
+                for L in LETTERS:
+                    for tail in (["app+3", "app@", "app@"], ["app@", "app+3", "app@"]):
+                        steps = run_letters(impl, st, 9, chooser=scripted([F, L] + tail), faults=faults)
+                        stats["fault_histories"] += 1
+                        stats["faults_fired"] += sum("FAULT" in x[4] for x in steps)
+                        run_and_check(st, steps)
         nrand = ctx.n(600, 10000) * (4 if broken else 1)
         names = sorted(starts)
         stats["long_histories"] = 0
@@ -825,7 +946,20 @@ def oracle(ctx, disagreements, broken):
             long_ = ctx.rng.random() < 0.03
             k = ctx.rng.randint(25, 60) if long_ else ctx.rng.randint(2, 14)
             stats["long_histories"] += long_
-            run_and_check(st, run_letters(impl, st, k, chooser=random_letters(ctx.rng, st, k), sr_override=sr))
+            ch = random_letters(ctx.rng, st, k)
+            if ctx.rng.random() < 0.4:
+                base, rng_ = ch, ctx.rng
+                pending = []
+
+                def ch(a, base=base, pending=pending, rng_=rng_):
+                    if pending:
+                        return pending.pop()
+                    L = base(a)
+                    if a.state >= 8 and rng_.random() < 0.15:
+                        pending.append(L)
+                        return rng_.choice(FAULTS)
+                    return L
+            run_and_check(st, run_letters(impl, st, k, chooser=ch, sr_override=sr, faults=faults))
     finally:
         impl.close()
     stats["failures"] = len(failures)
@@ -857,12 +991,13 @@ def replay(ctx, rp):
             print("replay: set_next_num_in ->", [f["input"] for f in uf][:3])
             return bool(uf)
         st = S.parse_conn_tokens(h["start"])
+        faults = Faults(impl)
         impl.load(st)
         a, steps = st, []
         for (sr, evt), L in zip(h["events"], h.get("letters") or [""] * len(h["events"])):
             ev = parse_event_tokens(evt)
             del impl.eff[:]
-            impl.apply(sr, ev)
+            apply_event(impl, faults, sr, ev)
             eff, post = impl.effects(), impl.dump()
             steps.append((sr, ev, L, a.tokens(), eff, post))
             a = S.parse_conn_tokens(post)
